@@ -764,6 +764,10 @@ def _is_scalar_const_value(val: Optional[ir.Value]) -> bool:
 
 
 def _is_elementwise_node(node: ir.Node) -> bool:
+    # Only standard-domain operators: an @onnx_function call node may carry the
+    # same op_type (e.g. a function named "Relu") without being elementwise.
+    if (getattr(node, "domain", "") or "") != "":
+        return False
     return (
         node.op_type in ELEMENTWISE_UNARY_OPS or node.op_type in ELEMENTWISE_BINARY_OPS
     )
@@ -1141,7 +1145,7 @@ def _collect_add_transpose_forest(
     Transpose(perm_fwd) and external outputs are wrapped by one
     Transpose(perm_inv). Returns None when the pattern does not match.
     """
-    if start.op_type != "Add":
+    if not _is_standard_onnx_node(start, "Add"):
         return None
 
     perm_fwd: Optional[List[int]] = None
@@ -1156,7 +1160,7 @@ def _collect_add_transpose_forest(
         node = queue.pop(0)
         if node in add_set:
             continue
-        if node.op_type != "Add":
+        if not _is_standard_onnx_node(node, "Add"):
             return None
 
         ins = _node_inputs(node)
@@ -1167,7 +1171,7 @@ def _collect_add_transpose_forest(
         transpose_input_count = 0
         for iv in ins:
             prod = _producer_node(nodes, iv)
-            if prod is not None and prod.op_type == "Add":
+            if prod is not None and _is_standard_onnx_node(prod, "Add"):
                 add_input_count += 1
                 if prod not in add_set:
                     # Keep traversal strictly forward from the selected root.
@@ -1197,7 +1201,7 @@ def _collect_add_transpose_forest(
             return None
         consumers = _consumer_nodes(nodes, out)
         for consumer in consumers:
-            if consumer.op_type == "Add":
+            if _is_standard_onnx_node(consumer, "Add"):
                 if consumer not in add_set:
                     queue.append(consumer)
                 continue
@@ -1240,7 +1244,7 @@ def remove_redundant_transpose_add_forests_ir(graph: ir.Graph) -> None:
         changed = False
         nodes = list(cast(NodeSeq, graph))
         for start in nodes:
-            if start.op_type != "Add":
+            if not _is_standard_onnx_node(start, "Add"):
                 continue
 
             match = _collect_add_transpose_forest(nodes, start)
@@ -1318,7 +1322,7 @@ def remove_redundant_transpose_pairs_ir(graph: ir.Graph) -> None:
         # Pass -1: collapse Add chains surrounded by transposes (NHWC <-> NCHW)
         visited_adds: Set[ir.Node] = set()
         for start in nodes:
-            if start.op_type != "Add":
+            if not _is_standard_onnx_node(start, "Add"):
                 continue
             if start in visited_adds:
                 continue
@@ -1331,7 +1335,7 @@ def remove_redundant_transpose_pairs_ir(graph: ir.Graph) -> None:
             prev: Optional[ir.Node] = None
             cur: Optional[ir.Node] = start
             while cur is not None:
-                if cur.op_type != "Add":
+                if not _is_standard_onnx_node(cur, "Add"):
                     ok = False
                     break
                 ins = _node_inputs(cur)
@@ -1379,8 +1383,12 @@ def remove_redundant_transpose_pairs_ir(graph: ir.Graph) -> None:
                     ok = False
                     break
                 consumers = _consumer_nodes(nodes, out)
-                add_consumers = [c for c in consumers if c.op_type == "Add"]
-                other_consumers = [c for c in consumers if c.op_type != "Add"]
+                add_consumers = [
+                    c for c in consumers if _is_standard_onnx_node(c, "Add")
+                ]
+                other_consumers = [
+                    c for c in consumers if not _is_standard_onnx_node(c, "Add")
+                ]
                 if len(add_consumers) > 1:
                     ok = False
                     break
@@ -1651,7 +1659,10 @@ def remove_redundant_transpose_pairs_ir(graph: ir.Graph) -> None:
                 while steps < 8:
                     steps += 1
                     m = cur
-                    if m.op_type in ALLOWED_ELEMWISE:
+                    if (
+                        m.op_type in ALLOWED_ELEMWISE
+                        and (getattr(m, "domain", "") or "") == ""
+                    ):
                         chain_nodes.append(m)
                         allowed_nodes.append(m)
                         cur_val = _node_output(m)
